@@ -232,6 +232,11 @@ func (a *attributeQuery) Select(t iterator) NodeNavigator {
 			if node == nil {
 				return nil
 			}
+			if node.NodeType() == AttributeNode {
+				// An attribute has no attributes; MoveToNextAttribute would walk
+				// on to the following attributes of its element.
+				continue
+			}
 			node = node.Copy()
 			a.iterator = func() NodeNavigator {
 				for {
